@@ -117,7 +117,7 @@ func xmlSafe(s string) string {
 func genRenderCase(rng *rand.Rand) *renderCase {
 	c := &renderCase{
 		Kind:       []string{"json", "xml", "binary", "text"}[rng.Intn(4)],
-		Status:     []int{200, 201, 202, 204, 301, 400, 404, 418, 500, 503, 100 + rng.Intn(500)}[rng.Intn(11)],
+		Status:     []int{200, 201, 202, 204, 301, 400, 404, 418, 500, 503, 100 + rng.Intn(500), 599, 600, 999, 600 + rng.Intn(400)}[rng.Intn(15)],
 		Charset:    []string{"", "", "utf-8", "gbk", "ISO-8859-1"}[rng.Intn(5)],
 		JSONIndent: []string{"", "", "  ", "\t", "    "}[rng.Intn(5)],
 		XMLIndent:  []string{"", "", "  ", "\t"}[rng.Intn(4)],
@@ -435,7 +435,7 @@ func judgeRender(w *core.W, c *renderCase) {
 }
 
 func runC17(r *core.Run) {
-	r.Rule("one Render call per case: JSON (random trees of objects/arrays/strings incl. <>& and control characters/numbers/bools/null, depth<=3), XML (struct with attributes, nested elements, chardata, optional pointer field; XML-valid characters), Binary (arbitrary bytes), PlainText; statuses 100-599; Charset default/custom, JSON/XML indent off/on; Renderer installed as application middleware, group handler or route handler with 0-2 handlers in between; 1/5 of the cases with a second request overlapping between receiving Render and rendering; 1/6 with the options passed as a slice that the caller overwrites afterwards; 600/12000 serial cases with the process environment set to production/development/test while the Renderer is created and while the request is served. Oracle: recorded status and Content-Type; body decoded back with encoding/json / encoding/xml deep-equals the input and equals the standard encoder's output for the configured indent; bytes and text verbatim. non-trivial = distinct (method, options, placement, status, value)")
+	r.Rule("one Render call per case: JSON (random trees of objects/arrays/strings incl. <>& and control characters/numbers/bools/null, depth<=3), XML (struct with attributes, nested elements, chardata, optional pointer field; XML-valid characters), Binary (arbitrary bytes), PlainText; statuses 100-999; Charset default/custom, JSON/XML indent off/on; Renderer installed as application middleware, group handler or route handler with 0-2 handlers in between; 1/5 of the cases with a second request overlapping between receiving Render and rendering; 1/6 with the options passed as a slice that the caller overwrites afterwards; 600/12000 serial cases with the process environment set to production/development/test while the Renderer is created and while the request is served. Oracle: recorded status and Content-Type; body decoded back with encoding/json / encoding/xml deep-equals the input and equals the standard encoder's output for the configured indent; bytes and text verbatim. non-trivial = distinct (method, options, placement, status, value)")
 	r.Assume("values are encodable (valid UTF-8 strings for JSON, XML-valid characters for XML); request method POST")
 	c17Canaries(r)
 	n := r.N(100000, 6000000)
@@ -444,7 +444,7 @@ func runC17(r *core.Run) {
 		w.Begin("render", c)
 		judgeRender(w, c)
 	})
-	r.Parallel("status-sweep", 500, func(w *core.W, rng *rand.Rand, i int) {
+	r.Parallel("status-sweep", 900, func(w *core.W, rng *rand.Rand, i int) {
 		for _, kind := range []string{"json", "xml", "binary", "text"} {
 			c := genRenderCase(rng)
 			for c.Kind != kind {
@@ -459,7 +459,7 @@ func runC17(r *core.Run) {
 			judgeRender(w, c)
 		}
 	})
-	r.GateCounter("status-sweep", 2000)
+	r.GateCounter("status-sweep", 3600)
 	// the process environment (which only Recovery is documented to read) while the Renderer is created and
 	// while the request is served: serial cases, the environment is process-global
 	ws := r.Serial()
